@@ -310,6 +310,26 @@ pub fn random_cfg(rng: &mut Rng, animated: Option<bool>) -> WCfg {
 }
 
 /// ops that supply exactly the declared images, with harmless operations interleaved
+/// The histories covered by the known finding "stream writer on an animated encoder emits a malformed APNG" (identified on the unchanged tree):
+/// the FIRST image of an animation goes through a stream writer (its IDAT chunks get a sequence-number prefix and the numbering shifts), or a
+/// streamed frame is narrower than the canvas (rows of canvas width are written).  Later full-width frames streamed after a first image written
+/// whole are NOT in this class: they are conformant on the unchanged tree.
+pub fn known_stream_zone(cfg: &WCfg, ops: &[WOp]) -> bool {
+    if cfg.animated.is_none() { return false; }
+    let mut narrow = false;
+    let mut idx = 0;
+    for op in ops {
+        match op {
+            WOp::FrameDim(fw, _) => { narrow = *fw != cfg.w; }
+            WOp::ResetDim => { narrow = false; }
+            WOp::Image { stream, .. } => { if stream.is_some() && (idx == 0 || narrow) { return true; } idx += 1; }
+            WOp::IntoStream { .. } => { if idx == 0 || narrow { return true; } idx += 1; }
+            _ => {}
+        }
+    }
+    false
+}
+
 pub fn declared_ops(cfg: &WCfg, rng: &mut Rng, allow_stream: bool, allow_subframes: bool) -> Vec<WOp> {
     let n = match cfg.animated { Some((nf, _)) => nf as usize + cfg.sep as usize, None => 1 };
     let mut ops = vec![];
@@ -377,6 +397,22 @@ pub fn run(a: &Args) {
             o.count("not-accepted");
             continue;
         }
+        if std::env::var("VERIF_DEBUG_C12").is_ok() && uses_stream && cfg.animated.is_some() {
+            // features of the history: which images are streamed, and whether a streamed image is a sub-frame
+            let mut feats = vec![];
+            let mut sub = false;
+            let mut idx = 0;
+            for op in &ops {
+                match op {
+                    WOp::FrameDim(fw, fh) => { sub = *fw != cfg.w || *fh != cfg.h; }
+                    WOp::ResetDim => { sub = false; }
+                    WOp::Image { stream, .. } => { feats.push(format!("{}{}{}", idx, if stream.is_some() { "S" } else { "w" }, if sub { "sub" } else { "" })); idx += 1; }
+                    WOp::IntoStream { .. } => { feats.push(format!("{}I{}", idx, if sub { "sub" } else { "" })); idx += 1; }
+                    _ => {}
+                }
+            }
+            eprintln!("C12DBG sep={} nf={:?} {} => {}", cfg.sep, cfg.animated, feats.join(" "), match validate(&bytes) { Ok(_) => "OK".to_string(), Err(e) => format!("BAD {}", e.chars().take(60).collect::<String>()) });
+        }
         match validate(&bytes) {
             Ok(v) => {
                 if !uses_stream {
@@ -386,7 +422,7 @@ pub fn run(a: &Args) {
                 }
             }
             Err(why) => {
-                let class = if uses_stream && cfg.animated.is_some() { "stream-writer-on-animated-encoder-emits-malformed-apng" } else { "encoder-output-not-conformant" };
+                let class = if uses_stream && known_stream_zone(&cfg, &ops) { "stream-writer-on-animated-encoder-emits-malformed-apng" } else { "encoder-output-not-conformant" };
                 o.violation(viol("encoder-output-not-conformant", class, detail(&why)));
             }
         }
